@@ -794,7 +794,16 @@ func checkC10(w *World, r *Report) {
 						}
 					}
 					if wr && fn != a.regAdd && fn != a.regRemove {
-						writers = append(writers, fname(fn))
+						// a fresh helper writes on behalf of its callers
+						foreign := false
+						for _, rt := range w.inlineRoots(fn) {
+							if rt != a.regAdd && rt != a.regRemove {
+								foreign = true
+							}
+						}
+						if foreign {
+							writers = append(writers, fname(fn))
+						}
 					}
 				}
 			}
@@ -1029,14 +1038,21 @@ func (w *World) returnsOnly2(fn *ssa.Function, alts ...string) (bool, string) {
 			if ret, ok := in.(*ssa.Return); ok && len(ret.Results) == 1 {
 				n++
 				p := w.pathOf(ret.Results[0])
-				ok := false
-				for _, a := range alts {
-					if matchArg(a, p) {
-						ok = true
-					}
+				// a merged result phi(a|b) is fine when each alternative is
+				parts := []string{p}
+				if strings.HasPrefix(p, "phi(") && strings.HasSuffix(p, ")") {
+					parts = splitTop(p[4:len(p)-1], '|')
 				}
-				if !ok {
-					return false, p
+				for _, part := range parts {
+					ok := false
+					for _, a := range alts {
+						if matchArg(a, part) {
+							ok = true
+						}
+					}
+					if !ok {
+						return false, p
+					}
 				}
 			}
 		}
@@ -1687,4 +1703,25 @@ func checkEventLogNilSafe(w *World, r *Report, rule string) {
 		if n == 0 {
 			r.OK(rule, "events:Log", "the undeliverable-message events have no Log method (nothing is dereferenced)", "-")
 		}
+}
+
+
+// splitTop splits s at sep where the separator is not nested in parentheses, brackets or braces.
+func splitTop(s string, sep byte) []string {
+	var out []string
+	depth, start := 0, 0
+	for i := 0; i < len(s); i++ {
+		switch s[i] {
+		case '(', '[', '{':
+			depth++
+		case ')', ']', '}':
+			depth--
+		default:
+			if s[i] == sep && depth == 0 {
+				out = append(out, s[start:i])
+				start = i + 1
+			}
+		}
+	}
+	return append(out, s[start:])
 }
